@@ -47,6 +47,7 @@ type Engine struct {
 	stopOnViolation bool
 	mergeStats      int
 	tier string
+	fnByName map[string]*ssa.Function
 	lastDefinite bool
 	usedModels      bool
 	uniq            map[string]int
@@ -839,6 +840,9 @@ func (e *Engine) jump(s *State, f *Frame, to *ssa.BasicBlock) {
 	f.prev = from
 	f.block = to
 	f.ip = n
+	if f.loopHeader == to && s.loop != nil && s.loop.header == to {
+		e.loopArrive(s, f)
+	}
 }
 
 func (e *Engine) doReturn(s *State, f *Frame, res Value) {
@@ -853,6 +857,13 @@ func (e *Engine) doReturn(s *State, f *Frame, res Value) {
 		caller.locals[f.retIdx] = res
 	} else if f.retIdx == -2 {
 		caller.scratch = res
+	} else if f.retIdx == -3 && s.loop != nil {
+		lc := *s.loop
+		lc.ret, lc.returned, lc.frame = res, true, nil
+		s.loop = &lc
+		if lc.retIdx >= 0 {
+			caller.locals[lc.retIdx] = e.c.BV(1, 64)
+		}
 	}
 }
 
@@ -1173,7 +1184,7 @@ func (e *Engine) evalValue(s *State, f *Frame, in ssa.Value) Value {
 			at := x.X.Type().Underlying().(*types.Pointer).Elem().Underlying().(*types.Array)
 			e.check(s, c.Ult(idx, c.BV(uint64(at.Len()), 64)), "panic", "index out of range")
 			if isByteType(at.Elem()) {
-				if !e.symIdx && !idx.IsConst() {
+				if !(e.symIdx || s.symMem) && !idx.IsConst() {
 					idx = c.BV(e.concretize(s, idx, "byte index"), 64)
 				}
 				return &Pointer{Obj: a.Obj, Path: a.Path, BIdx: idx}
@@ -1188,7 +1199,7 @@ func (e *Engine) evalValue(s *State, f *Frame, in ssa.Value) Value {
 			et := x.X.Type().Underlying().(*types.Slice).Elem()
 			if isByteType(et) {
 				bi := c.Add(a.Off, idx)
-				if !e.symIdx && !bi.IsConst() {
+				if !(e.symIdx || s.symMem) && !bi.IsConst() {
 					bi = c.BV(e.concretize(s, bi, "byte index"), 64)
 				}
 				return &Pointer{Obj: a.Base.Obj, Path: a.Base.Path, BIdx: bi, Gen: a.Base.Gen}
@@ -1360,7 +1371,7 @@ func (e *Engine) sliceOp(s *State, f *Frame, x *ssa.Slice) Value {
 	// 0 <= lo <= hi <= max (unsigned compare catches negatives)
 	e.check(s, c.Ule(hi, max), "panic", "slice bounds out of range (high)")
 	e.check(s, c.Ule(lo, hi), "panic", "slice bounds out of range (low)")
-	if !e.symIdx {
+	if !(e.symIdx || s.symMem) {
 		if !lo.IsConst() {
 			lo = c.BV(e.concretize(s, lo, "slice low"), 64)
 		}
